@@ -1340,8 +1340,12 @@ class QuicConnection:
 
         # When restarting after a Retry or Version Negotiation packet, the packets
         # of the previous attempt are abandoned along with their packet spaces:
-        # remove them from the bytes in flight.
+        # what they carried (0-RTT stream data in particular) needs to be sent
+        # again, and they are removed from the bytes in flight.
         for space in self._loss.spaces:
+            for packet in space.sent_packets.values():
+                for handler, args in packet.delivery_handlers:
+                    handler(QuicDeliveryState.LOST, *args)
             self._loss.discard_space(space)
 
         self._initialize(self._peer_cid.cid)
